@@ -537,13 +537,14 @@ func genVal(c *Chooser, g GenCfg, depth int) *Val {
 		}
 		v := &Val{K: 'a'}
 		n := c.Range(0, 4)
+		idKind := c.Pick(6, 2, 1, 1) // number, string, array, object
 		for i := 0; i < n; i++ {
 			o := &Val{K: 'o'}
 			id := i
 			if !g.UniqueIDs {
 				id = c.Int(3)
 			}
-			o.set("id", vn(float64(id)))
+			o.set("id", idVal(idKind, id))
 			m := c.Range(0, 3)
 			for j := 0; j < m; j++ {
 				k := pickStr(c, plainKeys[:4])
@@ -669,7 +670,7 @@ func edit(c *Chooser, g GenCfg, v *Val) *Val {
 					max = id.N + 1
 				}
 			}
-			o.set("id", vn(max))
+			o.set("id", idLike(n.Elems, max))
 			if c.Chance(1, 2) {
 				o.set(pickStr(c, plainKeys[:4]), genScalar(c, g))
 			}
@@ -769,4 +770,60 @@ func perturb(c *Chooser, v *Val, eps float64) *Val {
 	}
 	walk(v)
 	return v
+}
+
+// idVal builds an identity value of the given kind for ordinal i.
+func idVal(kind, i int) *Val {
+	switch kind {
+	case 1:
+		return vs("id-" + strconv.Itoa(i))
+	case 2:
+		return &Val{K: 'a', Elems: []*Val{vn(float64(i))}}
+	case 3:
+		return &Val{K: 'o', Keys: []string{"k"}, Vals: []*Val{vn(float64(i))}}
+	}
+	return vn(float64(i))
+}
+
+// ordinalOf recovers the ordinal an identity value was built from.
+func ordinalOf(id *Val) int {
+	switch id.K {
+	case 'n':
+		return int(id.N)
+	case 's':
+		n, _ := strconv.Atoi(strings.TrimPrefix(id.S, "id-"))
+		return n
+	case 'a':
+		if len(id.Elems) == 1 {
+			return int(id.Elems[0].N)
+		}
+	case 'o':
+		if len(id.Vals) == 1 {
+			return int(id.Vals[0].N)
+		}
+	}
+	return 0
+}
+
+// idLike returns a fresh identity of the same kind as the ones in elems.
+func idLike(elems []*Val, _ float64) *Val {
+	kind, max := 0, -1
+	for _, e := range elems {
+		id, ok := e.get("id")
+		if !ok {
+			continue
+		}
+		switch id.K {
+		case 's':
+			kind = 1
+		case 'a':
+			kind = 2
+		case 'o':
+			kind = 3
+		}
+		if o := ordinalOf(id); o > max {
+			max = o
+		}
+	}
+	return idVal(kind, max+1)
 }
